@@ -1,5 +1,6 @@
 SPECIFICATION Spec
 CONSTANTS
+ Copies = 1  Pad = 0  Concat = FALSE
  EarlyTailError = FALSE
  MaxReinit = 0
  CountCalls = TRUE
